@@ -58,6 +58,7 @@ func main() {
 	in := bufio.NewReaderSize(os.Stdin, 1<<20)
 	out := bufio.NewWriterSize(os.Stdout, 1<<20)
 	defer out.Flush()
+	defer cleanupC16()
 	for {
 		line, err := in.ReadString('\n')
 		if line != "" {
